@@ -41,7 +41,8 @@ def fix4 : Bool := true  -- ConfigWatcher.done created by Start
 def fix5 : Bool := true  -- RedisPubsubPeers.hash becomes an atomic.Uint64
 def fix6 : Bool := true  -- RedisPubsubPeers.callbacks guarded by the new cbMut
 def fix7 : Bool := true  -- SamplerFactory.sharedDynsamplers length read under s.mutex
-def allFixed : Bool := fix1 && fix2 && fix3 && fix4 && fix5 && fix6 && fix7
+def fix8 : Bool := true -- DeterministicSharder.Start reads d.peers under peerLock (after the callback is registered)
+def allFixed : Bool := fix1 && fix2 && fix3 && fix4 && fix5 && fix6 && fix7 && fix8
 
 def disciplines : List (Nat × LDisc) := [
   -- InMemCollector
@@ -240,7 +241,15 @@ def disciplines : List (Nat × LDisc) := [
   (L.«SamplerFactory.peerCount», .lock L.«SamplerFactory.mutex»),
   (L.«SamplerFactory.mutex», .atomic),
   (L.«SamplerFactory.sharedDynsamplers», .lock L.«SamplerFactory.mutex»),
-  (L.«SamplerFactory.goalThroughputConfigs», .lock L.«SamplerFactory.mutex»)]
+  (L.«SamplerFactory.goalThroughputConfigs», .lock L.«SamplerFactory.mutex»),
+  -- DeterministicSharder
+  (L.«DeterministicSharder.Config», .initOnly),
+  (L.«DeterministicSharder.Logger», .initOnly),
+  (L.«DeterministicSharder.Peers», .initOnly),
+  (L.«DeterministicSharder.myShard», .initOnly),   -- written by Start only; the peers callback never touches it
+  (L.«DeterministicSharder.peers», .lock L.«DeterministicSharder.peerLock»),
+  (L.«DeterministicSharder.hashes», .lock L.«DeterministicSharder.peerLock»),
+  (L.«DeterministicSharder.peerLock», .atomic)]
 
 /-- Role of the functions that need one (every function not listed is `any`). -/
 def roles : List (Nat × Role) := [
@@ -267,6 +276,9 @@ def roles : List (Nat × Role) := [
   (F.«MultiMetrics.Start», .init),
   (F.«MultiMetrics.AddChild», .init),           -- only called by Start
   (F.«SamplerFactory.Start», .init),
+  -- Start registers the peers callback (→ loadPeerList in its own goroutine) before it reads
+  -- d.peers: those reads are extracted as `Start@shared` (spec.json post_publication), no role
+  (F.«DeterministicSharder.Start», .init),
   -- tear-down: after every user of the object has been stopped (startstop stops in reverse order)
   (F.«DirectTransmission.Stop», .teardown),
   (F.«DirectTransmission.Stop$1», .teardown),   -- the sends Stop starts and waits for itself
@@ -319,7 +331,10 @@ def knownViolations : List (Nat × Nat × AKind) :=
   (if fix6 then [] else [(L.«RedisPubsubPeers.callbacks», F.«RedisPubsubPeers.RegisterUpdatedPeersCallback», .write)]) ++
   -- 7. createSampler (worker goroutines) reports len(s.sharedDynsamplers) without the mutex while
   --    ClearDynsamplers (collector monitor goroutine, on reload) clears the map
-  (if fix7 then [] else [(L.«SamplerFactory.sharedDynsamplers», F.«SamplerFactory.createSampler», .read)])
+  (if fix7 then [] else [(L.«SamplerFactory.sharedDynsamplers», F.«SamplerFactory.createSampler», .read)]) ++
+  -- 8. DeterministicSharder.Start reads d.peers without peerLock after it registered the peers
+  --    callback, whose goroutine (loadPeerList) replaces d.peers under the write lock
+  (if fix8 then [] else [(L.«DeterministicSharder.peers», F.«DeterministicSharder.Start@shared», .read)])
 
 /-- Unresolved selectors that were inspected by hand and are not accesses to a tracked field. -/
 def reviewedUnresolved : List (String × String) := [
